@@ -5,6 +5,7 @@ package verifbench
 // entry point (DESIGN.md 1.3-1.5).
 
 import (
+	"flag"
 	"encoding/json"
 	"fmt"
 	"hash/fnv"
@@ -13,7 +14,6 @@ import (
 	"strings"
 	"sync"
 
-	"pgregory.net/rapid"
 )
 
 type Violation struct {
@@ -195,6 +195,10 @@ func (s *statsT) write() {
 	if p == "" {
 		return
 	}
+	if f := flag.Lookup("test.fuzzworker"); f != nil && f.Value.String() == "true" {
+		// native fuzzing runs one process per worker; each writes its own file, the driver merges them
+		p = fmt.Sprintf("%s.%d", p, os.Getpid())
+	}
 	s.mu.Lock()
 	defer s.mu.Unlock()
 	s.Hashes = s.Hashes[:0]
@@ -241,7 +245,11 @@ func writeFail(prop string, c any, vs []Violation) {
 // judge is called by every property with the drawn case and its result. It
 // records statistics, filters known findings and fails the rapid test (after
 // saving the case) on a fresh violation.
-func judge(t *rapid.T, prop string, c any, res *CheckResult) {
+type fataler interface {
+	Fatalf(format string, args ...any)
+}
+
+func judge(t fataler, prop string, c any, res *CheckResult) {
 	fresh, known := classify(prop, res.Violations)
 	stats.record(prop, res, known)
 	if len(fresh) > 0 {
